@@ -104,7 +104,7 @@ func podSlotScenarios(tier string) []clustermc.Scenario {
 		}
 	}
 	var out []clustermc.Scenario
-	cfgs := []schedrun.Config{{}, {Placement: "spread", ConsolidatingReclaim: true}}
+	cfgs := []schedrun.Config{{}, {Placement: "spread", ConsolidatingReclaim: true}, {GpuSpread: true}}
 	for _, slots := range []int{2, 3, 4} {
 		lay := nodeLayout{fmt.Sprintf("slots-1n-2gpu-pods%d", slots), []world.NodeOpt{{Name: "n1", CPU: "8", Mem: "8Gi", Pods: slots, GPUs: 2, GPUMemMiB: 40000}}}
 		for _, pick := range multisetsUpTo(len(menu), 3) {
